@@ -144,7 +144,12 @@ pub fn build_sut(s: &ReqSpec) -> Option<Built> {
             };
             let mut orig: Vec<(String, Vec<u8>)> = f.headers().iter().map(|(k, v)| (k.as_str().to_string(), v.as_bytes().to_vec())).collect();
             if !s.hops.is_empty() {
-                orig.retain(|(n, _)| !SUPPRESSED.contains(&n.as_str()));
+                // C13's rule for the previous request's credentials: kept only under the same-host policy, towards the
+                // original host, on the original scheme or https
+                let ou: Option<ureq_proto::http::Uri> = s.uri.parse().ok();
+                let keep_auth = s.policy_same_host
+                    && ou.as_ref().map(|u| u.host().is_some() && u.host() == f.uri().host() && (u.scheme_str() == f.uri().scheme_str() || f.uri().scheme_str() == Some("https"))).unwrap_or(false);
+                orig.retain(|(n, _)| !SUPPRESSED.contains(&n.as_str()) || (n == "authorization" && keep_auth));
             }
             if s.despite && s.despite_first {
                 f.send_body_despite_method();
@@ -552,6 +557,29 @@ pub fn c02(o: &Opts, t: &mut Tracer) -> Value {
         t.sig(format!("c02/{}/{}/{}/{}/{}/{}", method, version, api, depth, norig.min(13), nadded.min(7)));
         exercise(t, &s, &mut rng, if o.quick() { 5 } else { 8 }, true, "c02");
     }
+    // directed: the original request's credentials under either policy, towards the same host on either scheme and elsewhere
+    let mut k = 0usize;
+    for ouri in ["http://h.test/a", "https://h.test/a", "https://h.test:8443/a?b=1"] {
+        for loc in ["/r1", "http://h.test/plain", "https://h.test/sec", "http://other.test/x", "https://h.test:8443/p", "../up"] {
+            for policy_same_host in [true, false] {
+                for via in [false, true] {
+                    k += 1;
+                    let mut hops: Vec<(u16, String)> = vec![];
+                    if via {
+                        hops.push((302, "https://mid.test/m".to_string()));
+                    }
+                    hops.push(([302u16, 301, 307, 303][k % 4], loc.to_string()));
+                    let orig: Vec<(String, Vec<u8>)> = vec![("authorization".into(), b"Basic same-host-secret".to_vec()), ("x-a".into(), b"1".to_vec()),
+                                                           ("cookie".into(), b"c=1".to_vec()), ("authorization".into(), b"Bearer second".to_vec())];
+                    let added: Vec<(String, Vec<u8>)> = if k % 3 == 0 { vec![("authorization".into(), b"Bearer set-by-caller".to_vec())] } else { vec![] };
+                    let s = ReqSpec { method: ["GET", "HEAD", "OPTIONS"][k % 3].into(), version: "1.1", uri: ouri.into(), orig, added, despite: false, api: "flow", hops, policy_same_host, despite_first: false, sensitive: false };
+                    t.sig(format!("c02/auth/{}/{}/{}/{}", ouri, loc, policy_same_host, via));
+                    t.class("c02:original-credentials-across-redirect");
+                    exercise(t, &s, &mut rng, 3, true, "c02");
+                }
+            }
+        }
+    }
     json!({})
 }
 
@@ -640,6 +668,42 @@ pub fn c16(o: &Opts, t: &mut Tracer) -> Value {
         }
         exercise(t, &s, &mut rng, if o.quick() { 5 } else { 8 }, depth == 0, "c16");
     }
+    // directed: connection options and transfer codings set by the caller, on HTTP/1.0 and HTTP/1.1 flows, fresh and redirected
+    let mut k = 0usize;
+    for version in ["1.0", "1.1"] {
+        for method in ["GET", "HEAD", "POST"] {
+            for depth in [0usize, 1] {
+                for set in 0..5usize {
+                    k += 1;
+                    let body_now = method == "POST" && depth == 0;
+                    let despite = !body_now && method != "HEAD" && k % 2 == 0;
+                    let coding = set >= 3;
+                    if coding && (version == "1.0" || !(body_now || despite)) {
+                        continue;
+                    }
+                    let added: Vec<(String, Vec<u8>)> = match set {
+                        0 => vec![("connection".into(), b"keep-alive".to_vec()), ("x-a".into(), b"1".to_vec())],
+                        1 => vec![("x-a".into(), b"1".to_vec()), ("Connection".into(), b"Keep-Alive".to_vec()), ("keep-alive".into(), b"timeout=5".to_vec())],
+                        2 => vec![("connection".into(), b"close".to_vec()), ("connection".into(), b"keep-alive".to_vec())],
+                        3 => vec![("x-a".into(), b"1".to_vec()), ("transfer-encoding".into(), b"gzip".to_vec()), ("x-b".into(), b"2".to_vec())],
+                        _ => vec![("transfer-encoding".into(), b"gzip".to_vec()), ("transfer-encoding".into(), b"chunked".to_vec())],
+                    };
+                    let mut orig: Vec<(String, Vec<u8>)> = vec![("x-keep".into(), b"k".to_vec()), ("cookie".into(), b"orig-cookie=1".to_vec())];
+                    if method == "POST" && !coding {
+                        orig.push(("content-length".into(), b"0".to_vec()));
+                    }
+                    let hops: Vec<(u16, String)> = (0..depth).map(|_| (302u16, "/next".to_string())).collect();
+                    let s = ReqSpec { method: method.into(), version, uri: "http://h.test/start/page".into(), orig, added, despite, api: "flow", hops, policy_same_host: k % 2 == 1, despite_first: k % 3 == 0, sensitive: false };
+                    t.sig(format!("c16/directed/{}/{}/{}/{}", version, method, depth, set));
+                    t.class(if coding { "c16:added-transfer-coding-other-than-chunked" } else { "c16:added-connection-option" });
+                    if version == "1.0" {
+                        t.class("c16:http10-flow");
+                    }
+                    exercise(t, &s, &mut rng, 3, depth == 0, "c16");
+                }
+            }
+        }
+    }
     json!({})
 }
 
@@ -675,13 +739,14 @@ pub fn c17(o: &Opts, t: &mut Tracer) -> Value {
                                 match *h {
                                     "orig" => orig.push(("host".into(), b"o.test".to_vec())),
                                     "added" => added.push(("host".into(), b"a.test".to_vec())),
+                                    // (two Host fields are two too many, whether or not they say the same)
                                     "orig+added" => {
                                         orig.push(("host".into(), b"o.test".to_vec()));
-                                        added.push(("Host".into(), b"a.test".to_vec()));
+                                        added.push(("Host".into(), if (vi + mi + ci + ti) % 2 == 0 { b"a.test".to_vec() } else { b"o.test".to_vec() }));
                                     }
                                     "two-orig" => {
                                         orig.push(("host".into(), b"o.test".to_vec()));
-                                        orig.push(("host".into(), b"o2.test".to_vec()));
+                                        orig.push(("host".into(), if (vi + mi + ci + ti) % 2 == 1 { b"o2.test".to_vec() } else { b"o.test".to_vec() }));
                                     }
                                     "nontext" => orig.push(("host".into(), vec![b'h', 0xE9, b't'])),
                                     "empty" => orig.push(("host".into(), vec![])),
